@@ -27,32 +27,32 @@ fn same_addr(back: SocketAddr, a: SocketAddr) -> bool {
     }
 }
 
-fn xma_check(a: SocketAddr, t: u128, deep: bool) -> Option<(&'static str, String, String)> {
+fn xma_check(a: SocketAddr, t: u128, deep: bool, wide: u128) -> Option<(&'static str, String, String)> {
     if deep {
         // every operation is preceded, on the same thread, by the same operation under related
         // transaction ids (and another address): a memo or cache keyed on part of the id, or on the
         // id alone, would hand the stale result to the operation that is judged
         for t2 in [t ^ (1u128 << 95), t ^ (1u128 << 64), t ^ (1u128 << 63), t ^ 1, !t & MASK96] {
             let other = SocketAddr::new(if a.is_ipv4() { IpAddr::V6(Ipv6Addr::from([0x20, 1, 2, 3, 4, 5, 6, 7, 8, 9, 10, 11, 12, 13, 14, 15])) } else { a.ip() }, a.port() ^ 0x5555);
-            let y = XorMappedAddress::new(a, t2.into());
-            let _ = y.addr(t2.into());
-            let z = XorMappedAddress::new(other, t2.into());
-            let _ = z.addr(t2.into());
-            let x = XorMappedAddress::new(a, t.into());
-            if !same_addr(x.addr(t.into()), a) {
-                return Some(("addr-roundtrip-after-related-id", format!("{a}"), format!("{} after an operation under id {t2:#x}", x.addr(t.into()))));
+            let y = XorMappedAddress::new(a, (t2 | wide).into());
+            let _ = y.addr((t2 | wide).into());
+            let z = XorMappedAddress::new(other, (t2 | wide).into());
+            let _ = z.addr((t2 | wide).into());
+            let x = XorMappedAddress::new(a, (t | wide).into());
+            if !same_addr(x.addr((t | wide).into()), a) {
+                return Some(("addr-roundtrip-after-related-id", format!("{a}"), format!("{} after an operation under id {t2:#x}", x.addr((t | wide).into()))));
             }
             let want_wire = attrs::encode(Kind::XorMappedAddress, &Val::Addr(attrs::xor_addr(a, t)));
             if x.to_raw().value[..] != want_wire[..] {
                 return Some(("wire-encoding-after-related-id", crate::refimpl::crypto::hex(&want_wire), format!("{} after an operation under id {t2:#x}", crate::refimpl::crypto::hex(&x.to_raw().value))));
             }
-            if a.is_ipv6() && y.addr(t.into()) == a && t2 != t {
+            if a.is_ipv6() && y.addr((t | wide).into()) == a && t2 != t {
                 return Some(("v6-other-tid-same-address", "a different address".into(), format!("same address under id {t2:#x} and {t:#x}")));
             }
         }
     }
-    let x = XorMappedAddress::new(a, t.into());
-    let back = x.addr(t.into());
+    let x = XorMappedAddress::new(a, (t | wide).into());
+    let back = x.addr((t | wide).into());
     if !same_addr(back, a) {
         return Some(("addr-roundtrip", format!("{a}"), format!("{back}")));
     }
@@ -76,8 +76,8 @@ fn xma_check(a: SocketAddr, t: u128, deep: bool) -> Option<(&'static str, String
     };
     match XorMappedAddress::from_raw(&parsed) {
         Ok(y) => {
-            if !same_addr(y.addr(t.into()), a) {
-                return Some(("wire-trip", format!("{a}"), format!("{}", y.addr(t.into()))));
+            if !same_addr(y.addr((t | wide).into()), a) {
+                return Some(("wire-trip", format!("{a}"), format!("{}", y.addr((t | wide).into()))));
             }
             if y != x {
                 return Some(("wire-trip-eq", "equal attribute".into(), format!("{y:?} vs {x:?}")));
@@ -88,13 +88,13 @@ fn xma_check(a: SocketAddr, t: u128, deep: bool) -> Option<(&'static str, String
     // decode of the reference encoding
     let r = RawAttribute::new(AttributeType::new(0x0020), &want_wire);
     match XorMappedAddress::from_raw(&r) {
-        Ok(y) if same_addr(y.addr(t.into()), a) => {}
-        other => return Some(("decode-reference-wire", format!("{a}"), format!("{:?}", other.map(|y| y.addr(t.into()))))),
+        Ok(y) if same_addr(y.addr((t | wide).into()), a) => {}
+        other => return Some(("decode-reference-wire", format!("{a}"), format!("{:?}", other.map(|y| y.addr((t | wide).into()))))),
     }
     if a.is_ipv6() {
         for bit in 0..96 {
             let t2 = (t & MASK96) ^ (1u128 << bit);
-            if x.addr(t2.into()) == a {
+            if x.addr((t2 | wide).into()) == a {
                 return Some(("v6-other-tid-same-address", "a different address".into(), format!("same address under tid bit {bit} flipped")));
             }
         }
@@ -155,8 +155,26 @@ fn parse_case(c: &Case) -> (SocketAddr, u128) {
 pub fn judge(case: &Case, acc: &mut Acc) {
     acc.evaluations += 1;
     acc.validated += 1;
+    if case.op == "xma-generated" {
+        acc.outcome("generated ids");
+        for i in 0..case.args[0] {
+            let id = stun_types::message::TransactionId::generate();
+            let t: u128 = id.into();
+            for a in ["[2001:db8::1]:3478", "192.0.2.1:40000", "[::ffff:1.2.3.4]:1"] {
+                let a: SocketAddr = a.parse().unwrap();
+                let x = XorMappedAddress::new(a, id);
+                let want_wire = attrs::encode(Kind::XorMappedAddress, &Val::Addr(attrs::xor_addr(a, t & MASK96)));
+                if !same_addr(x.addr(id), a) || x.to_raw().value[..] != want_wire[..] {
+                    viol!(acc, P, "generated-id", case, format!("XOR-MAPPED-ADDRESS under an id from TransactionId::generate() (call {i}) does not return / encode the address as RFC 8489 §14.2 says"), format!("{a} / {}", crate::refimpl::crypto::hex(&want_wire)), format!("{} / {}", x.addr(id), crate::refimpl::crypto::hex(&x.to_raw().value)));
+                    return;
+                }
+            }
+        }
+        return;
+    }
     let (a, t) = parse_case(case);
-    match xma_check(a, t, true) {
+    let wide: u128 = (case.args.first().copied().unwrap_or(0) as u128 & 0xFFFF_FFFF) << 96;
+    match xma_check(a, t, true, wide) {
         None => acc.outcome(if a.is_ipv4() { "ipv4 ok" } else { "ipv6 ok" }),
         Some((clause, exp, obs)) => {
             acc.outcome("VIOLATION");
@@ -259,6 +277,21 @@ pub fn run(ctx: &Ctx) -> Report {
             }
         }
     }
+    // transaction ids built from integers wider than 96 bits (TransactionId::from masks them; whatever
+    // is derived from the id must be derived from the masked value): the same addresses under ids
+    // with bits 96..128 set
+    for txt in ["2001:db8::1", "::1", "fe80::1", "192.0.2.1", "2112:a442::1"] {
+        let ip: IpAddr = txt.parse().unwrap();
+        for wide in [0xFFFF_FFFFi64, 0x0000_0001, 0x8000_0000, 0xDEED_BEEF, 0x2112_A442] {
+            for t in tids {
+                let mut c = mk_case(SocketAddr::new(ip, 3478), t);
+                c.args = vec![wide];
+                cases.push(c);
+            }
+        }
+    }
+    // ... and under ids from TransactionId::generate() (the ids an application really has)
+    cases.push(Case::new("xma-generated", vec![]).args(&[4000]));
     // socket addresses with a zone (scope id) or a flow label, as recv_from hands them to a server
     // for link-local peers, and plain addresses of the forms a zone could be folded into
     for txt in ["fe80::1", "fe80::abcd:1234:5678:9abc", "ff02::1", "2001:db8::1", "::1", "fe80:2::1", "fe80:ffff::1", "fe80:0:1::1", "fe80::2:0:0:1", "fec0::1"] {
@@ -312,7 +345,7 @@ pub fn run(ctx: &Ctx) -> Report {
         .reduce(Acc::default, |a, b| a.merge(b));
     acc.nontrivial = n_cases;
     let mut bounds = json!({"ports": 65536, "lane_walk_backgrounds": 5, "cases": n_cases});
-    let mut rule = "all 65536 ports x 4 addresses x 3 tids; every byte lane of IPv4/IPv6 address and of the transaction id takes all 256 values against 5 backgrounds (zeros, ones, equal to the XOR key, complement, seeded); boundary tids; 17 special-purpose addresses (unspecified, loopback, IPv4-mapped / -compatible, NAT64, link-local, multicast, 6to4, ...) x 5 ports x 4 tids, and the addresses whose obfuscated (XOR-ed) form is one of those; IPv6 socket addresses with scope ids and flow labels (the IP address, port and wire value must not depend on them); IPv4: all 6 lane pairs x all 65536 value pairs; IPv6: adjacent lanes and lanes 8 apart x 256 x (every 5th value + boundary set; all 256 in thorough); IPv6: all 96 single-bit-different tids; every judged operation is preceded on the same thread by operations under five related transaction ids".to_string();
+    let mut rule = "all 65536 ports x 4 addresses x 3 tids; every byte lane of IPv4/IPv6 address and of the transaction id takes all 256 values against 5 backgrounds (zeros, ones, equal to the XOR key, complement, seeded); boundary tids; 17 special-purpose addresses (unspecified, loopback, IPv4-mapped / -compatible, NAT64, link-local, multicast, 6to4, ...) x 5 ports x 4 tids, and the addresses whose obfuscated (XOR-ed) form is one of those; transaction ids built from integers wider than 96 bits and 4000 ids from TransactionId::generate(); IPv6 socket addresses with scope ids and flow labels (the IP address, port and wire value must not depend on them); IPv4: all 6 lane pairs x all 65536 value pairs; IPv6: adjacent lanes and lanes 8 apart x 256 x (every 5th value + boundary set; all 256 in thorough); IPv6: all 96 single-bit-different tids; every judged operation is preceded on the same thread by operations under five related transaction ids".to_string();
     if ctx.tier == Tier::Thorough {
         // all 2^32 IPv4 addresses (fast path: address round trip + wire encoding)
         let fails = AtomicU64::new(0);
@@ -331,7 +364,7 @@ pub fn run(ctx: &Ctx) -> Report {
                     {
                         n += 1;
                         let a = SocketAddr::new(IpAddr::V4(ip), port);
-                        if let Some((c, e, o)) = xma_check(a, t, false) {
+                        if let Some((c, e, o)) = xma_check(a, t, false, 0) {
                             fails.fetch_add(1, Ordering::Relaxed);
                             let mut g = first_fail.lock().unwrap();
                             if g.is_none() {
